@@ -26,6 +26,7 @@ static CaseResult run_case(Tape &t)
 	if (R.n_lost_answers) r.cls("answers-lost");
 	if (R.n_trunc) r.cls("size-exceeds-format(unjudged packet)");
 	if (R.n_recycled) r.cls("slot-expired-and-reused");
+	if (R.n_recycled_same_name) r.cls("new-session-repeats-a-name-of-the-earlier-session");
 	if (R.peers.size() > 1) r.cls("two-sessions");
 	if (R.n_c2c) r.cls("client-to-client-packets");
 	if (R.wm.max_frag_seen > 1000) r.cls("fragment>1000B");
